@@ -63,6 +63,9 @@ type GenCase struct {
 	AbsMarker   string            `json:"-"`
 }
 
+// outsideProbe is an absolute name far outside the scratch area that a hostile response asks for.
+const outsideProbe = "/tmp/verif-c17-should-never-exist"
+
 const absToken = "{ABS}" // in names / outs: replaced by the absolute path of the work area's parent
 
 func pluginBinary(t fataler) string {
@@ -469,6 +472,11 @@ func runL2(ctx context.Context, t fataler, r *evid.Recorder, c *GenCase) {
 	}
 	after := snapshot(t, caseDir, rec, home)
 	r.Eval()
+	if _, err := os.Lstat(outsideProbe); err == nil {
+		_ = os.Remove(outsideProbe)
+		r.Fail(t, "escape-write", fmt.Sprintf("buf %s: the absolute name %s returned by a plugin was written", strings.Join(args, " "), outsideProbe), c)
+		return
+	}
 	cmd := "buf " + strings.Join(args, " ")
 
 	// --- recorded requests
@@ -534,6 +542,17 @@ func runL2(ctx context.Context, t fataler, r *evid.Recorder, c *GenCase) {
 			exp.includeWKT = c.FlagWKT == "true"
 		}
 		exp.partial = code != 0
+		nTargets := 0
+		for _, v := range views {
+			if !v.IsImport {
+				nTargets++
+			}
+		}
+		if nTargets == 0 {
+			// the type filter left no target file: nothing is promised about the (possibly absent) requests
+			r.Class("l2:filtered-image-has-no-targets")
+			continue
+		}
 		if len(reqs) == 0 {
 			if code == 0 {
 				r.Fail(t, "not-generated", fmt.Sprintf("%s: exit 0 but plugin entry %s never received a request", cmd, p.Opt), c)
@@ -794,7 +813,7 @@ func (c *GenCase) classifyL2(r *evid.Recorder, exp *model, nontrivialL1 bool) {
 
 var benignNames = []string{"a.txt", "pkg/b.go", "deep/er/c.pb", "x..y", "..z", "w..", ".hidden", "sp ace.txt", "ü.txt", "m/./n1.txt", "m//n2.txt", "./n3.txt", "q/../n4.txt", "back\\slash.txt", "...", "d/...", "very/deep/dir/tree/leaf.txt"}
 
-var hostileNames = []string{"../up.txt", "../../up2.txt", "a/../../up3.txt", absToken + "/abs-escape/x.txt", "..", "a/../..", "", "/", "../", "x/../../area-side.txt", "./../dot-up.txt", "a/b/../../../up4.txt", "/etc/verif-c17-should-never-exist"}
+var hostileNames = []string{"../up.txt", "../../up2.txt", "a/../../up3.txt", absToken + "/abs-escape/x.txt", "..", "a/../..", "", "/", "../", "x/../../area-side.txt", "./../dot-up.txt", "a/b/../../../up4.txt", outsideProbe}
 
 func genScript(t *rapid.T, p *Plugin, mode string, earlier []Plugin) {
 	n := rapid.IntRange(1, 4).Draw(t, "nfiles")
